@@ -49,7 +49,7 @@ Theorem csv_log_day_foods_distinct : forall (NM : Num) (c : Z * Z * Z) (es : lis
 Proof. exact CsvRunLog.log_day_rows_foods. Qed.
 Print Assumptions csv_log_day_foods_distinct.
 
-(** beyond the property: ANY readable log (regular file without read fault, or the empty name).
+(** beyond the property: ANY readable log (regular file without read fault, or the null device; since fix F24 NOT the empty name, which does not open).
     [log_walk toks bt et evs] (Proofs/CsvRunLogGen.v) = the rows as above of the records delivered
     BEFORE the first malformed line or heading that is not a date, and that failure;
     [csv_delivered] / [scan_status] (Proofs/CsvWalk.v) = what the parser delivers and the scanner's
